@@ -20,6 +20,8 @@
 #include <string>
 #include <algorithm>
 #include <memory>
+#include "heap_allocator.hpp"
+#include "new_allocator.hpp"
 using namespace foonathan::memory;
 using namespace verif;
 
@@ -53,6 +55,28 @@ struct origin_leaf
     std::size_t max_alignment() const { return 4096; }
 };
 static origin_leaf LA(0), LB(1);
+
+// a copyable handle to an origin leaf, declared a shared allocator: std_allocator stores it by value
+struct shared_origin
+{
+    using is_stateful = std::true_type;
+    origin_leaf* o;
+    void* allocate_node(std::size_t s, std::size_t a) { return o->allocate_node(s, a); }
+    void* allocate_array(std::size_t c, std::size_t s, std::size_t a) { return o->allocate_array(c, s, a); }
+    void deallocate_node(void* p, std::size_t s, std::size_t a) noexcept { o->deallocate_node(p, s, a); }
+    void deallocate_array(void* p, std::size_t c, std::size_t s, std::size_t a) noexcept { o->deallocate_array(p, c, s, a); }
+    std::size_t max_node_size() const { return std::size_t(-1); }
+    std::size_t max_array_size() const { return std::size_t(-1); }
+    std::size_t max_alignment() const { return 4096; }
+    friend bool operator==(const shared_origin& a, const shared_origin& b) noexcept { return a.o == b.o; }
+    friend bool operator!=(const shared_origin& a, const shared_origin& b) noexcept { return a.o != b.o; }
+};
+namespace foonathan { namespace memory { template <> struct is_shared_allocator<shared_origin> : std::true_type {}; } }
+static origin_leaf* leaf_of(const origin_leaf& l) { return const_cast<origin_leaf*>(&l); }
+static origin_leaf* leaf_of(const shared_origin& l) { return l.o; }
+template <class A> static A make_alloc(origin_leaf& l, A*);
+template <class T> static std_allocator<T, origin_leaf> make_alloc(origin_leaf& l, std_allocator<T, origin_leaf>*) { return std_allocator<T, origin_leaf>(l); }
+template <class T> static std_allocator<T, shared_origin> make_alloc(origin_leaf& l, std_allocator<T, shared_origin>*) { return std_allocator<T, shared_origin>(shared_origin{&l}); }
 
 // ---------------------------------------------------------------- probe
 static std::size_t g_probe_node = 0;
@@ -140,6 +164,13 @@ static int run_eq()
     show("any A A", x1 == x2, true); show("any A B", x1 == y1, false);
     any_std_allocator<long> xr(x1); show("any A rebind(A)", x1 == xr, true); show("any B rebind(A)", y1 == xr, false);
     any_std_allocator<int> xc(x1); show("any A copy(A)", xc == x1, true);
+    // type-erased references to stateless allocators: equal exactly when they are of the same type, on either side
+    heap_allocator hp; new_allocator nw;
+    any_std_allocator<int> s1(hp), s2(hp), s3(nw);
+    show("any heap heap", s1 == s2, true); show("any heap new", s1 == s3, false); show("any new heap", s3 == s1, false);
+    show("any heap A", s1 == x1, false); show("any A heap", x1 == s1, false); show("any new B", s3 == y1, false); show("any B new", y1 == s3, false);
+    std_allocator<int, shared_origin> sa(shared_origin{&LA}), sa2(shared_origin{&LA}), sb(shared_origin{&LB});
+    show("ref shared(A) shared(A)", sa == sa2, true); show("ref shared(A) shared(B)", sa == sb, false);
     return 0;
 }
 
@@ -151,10 +182,10 @@ template <class C, class M, bool Sorted, class Ins, class InsM, class Er, class 
 static void run_kind(const char* name, const std::vector<std::vector<std::string>>& script, Ins ins, InsM insm, Er er, ErM erm, bool can_splice)
 {
     using alloc_t = typename C::allocator_type;
-    auto mk = [&](int k) { return new C(alloc_t(k < 2 ? LA : LB)); };
+    auto mk = [&](int k) { return new C(make_alloc(k < 2 ? LA : LB, static_cast<alloc_t*>(nullptr))); };
     C* c[4]; M m[4];
     for (int k = 0; k < 4; ++k) c[k] = mk(k);
-    auto which = [&](int k) { return &c[k]->get_allocator().get_allocator() == &LA ? 'A' : 'B'; };
+    auto which = [&](int k) { return leaf_of(c[k]->get_allocator().get_allocator()) == &LA ? 'A' : 'B'; };
     auto same = [&](int k) {
         std::vector<long> x(c[k]->begin(), c[k]->end()), y(m[k].begin(), m[k].end());
         if (!Sorted) { std::sort(x.begin(), x.end()); std::sort(y.begin(), y.end()); }
@@ -164,7 +195,7 @@ static void run_kind(const char* name, const std::vector<std::vector<std::string
     for (auto& t : script)
     {
         ++lineno;
-        if (t.size() < 3 || t[0] != name) continue;
+        if (t.size() < 3 || t[0] != (name[0] == 's' && name[1] == '_' ? name + 2 : name)) continue;
         const std::string& op = t[1]; int i = std::atoi(t[2].c_str()) & 3; int j = t.size() > 3 ? std::atoi(t[3].c_str()) & 3 : 0; long v = t.size() > 4 ? std::atol(t[4].c_str()) : (t.size() > 3 ? std::atol(t[3].c_str()) : 0);
         long e0 = g_errors;
         if (op == "ins") { ins(*c[i], v); insm(m[i], v); }
@@ -210,6 +241,14 @@ static int run_prog()
         using C = std::vector<long, std_allocator<long, origin_leaf>>; using M = std::vector<long>;
         run_kind<C, M, true>("vector", script, [](C& c, long v) { c.push_back(v); }, [](M& c, long v) { c.push_back(v); }, [](C& c) { if (!c.empty()) c.pop_back(); }, [](M& c) { if (!c.empty()) c.pop_back(); }, false);
     }
+    {   // the same list and vector programs over a shared allocator (stored by value in std_allocator)
+        using C = std::list<long, std_allocator<long, shared_origin>>; using M = std::list<long>;
+        run_kind<C, M, true>("s_list", script, [](C& c, long v) { c.push_back(v); }, [](M& c, long v) { c.push_back(v); }, [](C& c) { if (!c.empty()) c.pop_front(); }, [](M& c) { if (!c.empty()) c.pop_front(); }, true);
+    }
+    {
+        using C = std::vector<long, std_allocator<long, shared_origin>>; using M = std::vector<long>;
+        run_kind<C, M, true>("s_vector", script, [](C& c, long v) { c.push_back(v); }, [](M& c, long v) { c.push_back(v); }, [](C& c) { if (!c.empty()) c.pop_back(); }, [](M& c) { if (!c.empty()) c.pop_back(); }, false);
+    }
     {
         using C = std::deque<long, std_allocator<long, origin_leaf>>; using M = std::deque<long>;
         run_kind<C, M, true>("deque", script, [](C& c, long v) { c.push_back(v); }, [](M& c, long v) { c.push_back(v); }, [](C& c) { if (!c.empty()) c.pop_front(); }, [](M& c) { if (!c.empty()) c.pop_front(); }, false);
@@ -248,6 +287,10 @@ static int run_prog()
         long e0 = g_errors;
         { auto p = allocate_shared<long>(LA, 5); auto q = allocate_shared<long>(LB, 6); std::swap(p, q); auto r = p; p.reset(); }
         { auto p = allocate_unique<long>(LA, 5); auto q = allocate_unique<long>(LB, 6); std::swap(p, q); p = std::move(q); }
+        // a constructor that throws (the type has a non-throwing default constructor): the node goes back where it came from
+        struct Picky { long a[3]; Picky() noexcept {} explicit Picky(int) { throw 7; } };
+        { try { auto p = allocate_unique<Picky>(LA, 1); } catch (int) {} try { auto p = allocate_shared<Picky>(LB, 1); } catch (int) {}
+          try { auto p = allocate_unique<Picky>(any_allocator{}, LB, 1); } catch (int) {} }
         std::printf("smart = done errors=%ld%s%s\n", g_errors - e0, g_errors - e0 ? " :: " : "", g_errors - e0 ? g_err.c_str() : "");
     }
     std::printf("end live=%zu errors=%ld allocs=%ld deallocs=%ld\n", g_live.size(), g_errors, g_allocs, g_deallocs);
